@@ -20,14 +20,14 @@ P = {
          "O-order: the union of per-consumer receive chains, per-producer send chains and real-time send edges must be acyclic; same scenario set as C01."),
  "C03": ("E1+E2", "exhaustive schedule enumeration + capacity-window oracle; exhaustive capacity pump histories",
          "O-cap: when an accepted send returns, accepted-returned sends minus receives begun on every subscribed stream is at most N; E2 pump over requested capacities 0..9 and the population histories compare every Full/Ok with the model."),
- "C04": ("E1", "exhaustive schedule enumeration with a payload whose clone/view/drop bodies contain scheduling points",
+ "C04": ("E1+E2", "exhaustive schedule enumeration with a payload whose clone/view/drop bodies contain scheduling points; payload ledger on all API histories",
          "O-payload: instrumented payload with scheduling points inside Clone/view closures and Drop; slot reads/writes are scheduling points; ledger detects drop-while-borrowed, replaced-during, dead or corrupt values."),
  "C05": ("E1+E2", "exhaustive schedule enumeration of teardown races + exhaustive API histories x teardown orders with a payload ledger",
          "O-ledger: every instance dropped exactly once after the last handle goes away, for every schedule of teardown races and every history x teardown order."),
  "C06": ("E1", "exhaustive schedule enumeration + post-join probe against the reference model",
          "O-quiesce: after the join, fill-to-Full and drain-to-End probes must equal the counts the model computes from the recorded history; every execution of the base families, the role matrix and the structural scenarios ends with the probe."),
  "C07": ("E1+E2", "exhaustive schedule enumeration of last-send/drop vs receive races + disconnect oracle; population sweep of parked consumers",
-         "O-disc: an end report requires every sender's drop to have begun and every accepted value to have been claimed on that stream; sticky afterwards; blocked/parked consumers must see the end. E2: 1..12 stream tasks parked when the last sender leaves must all be notified and then report the end."),
+         "O-disc: an end report requires every sender's drop to have begun and every accepted value to have been claimed on that stream; sticky afterwards; blocked/parked consumers must see the end; a drained stream must not answer Empty once every sender has left (also judged on the role matrix, where sender clones and drops race). E2: 1..12 stream tasks parked when the last sender leaves must all be notified and then report the end."),
  "C08": ("E1", "exhaustive schedule enumeration with modelled blocking; deadlock = no enabled thread",
          "O-hang: no terminal state with a thread blocked in recv/recv_view/iterator (condvar, or spin on unchanged memory) under busy/yielding/blocking waits with spin counts 0,1,(2,50)."),
  "C09": ("E2", "explicit enumeration of all API histories to a depth bound against a reference model, every transition executed on the real handles",
@@ -44,10 +44,10 @@ P = {
          "O-hang with a deterministic futures-0.1 executor (one task per managed thread, Notify -> runtime): no terminal state with a parked task; E2: in every futures history the operation that makes progress possible for a parked (emulated) task must have notified it when it returns; 1..12 tasks parked at once (the notify path switches at 8)."),
  "C15": ("E1+E2", "exhaustive API histories of the futures handles against the model + exhaustive schedules of futures traffic",
          "O-sinkstream: NotReady hands back the identical message, no sleep/condvar/spin-wait inside poll/start_send/poll_complete, direct methods equal the model and never panic; C01-C03 oracles on futures scenarios."),
- "C16": ("E1", "exhaustive schedule enumeration of stream churn at the reclamation threshold vs scanning writers, with a freed-set monitor; role matrix",
+ "C16": ("E1+E2", "exhaustive schedule enumeration of stream churn at the reclamation threshold vs scanning writers, with a freed-set monitor; role matrix; freed-set monitor on all API histories",
          "O-uaf: every shim atomic access, every dereference of a reader-list pointer (each scan iteration) and every slot access is checked against the set of freed crate blocks; double/unknown frees are caught at the deallocation hook and, for any other block, by the harness allocator's quarantine."),
  "C17": ("E1+E2", "exhaustive histories x teardown orders with an allocation ledger + deterministic churn histories; zero-live-blocks check at the end of every explored schedule",
-         "O-leak: zero live crate blocks and zero allocator delta after every history x teardown order and after every E1 execution of the role matrix; live bytes at plateau points of 10^2..10^5-cycle churn histories must not grow."),
+         "O-leak: zero live crate blocks and zero allocator delta after every history x teardown order and after every E1 execution of the role matrix; live bytes at plateau points of 10^2..10^5-cycle churn histories (also starting with a reclamation cycle in flight) must not grow; after the threshold-race scenarios of E1 a growth probe (2 x 16 more cycles) must find reclamation still working."),
  "C18": ("E1", "exhaustive enumeration of (schedule prefix, freeze point) pairs with a solo-run continuation",
          "O-solo: from every reachable state (others frozen at every scheduling point within the bound, including inside add_stream / unsubscribe / into_single / clone / drop) one try operation run alone must return within K of its own steps without yield/sleep/spin/lock wait."),
  "C19": ("E3", "exhaustive compile-probe matrix (bounded enumeration of programs, rustc as oracle)",
